@@ -169,6 +169,8 @@ class Mon:
         import torch
 
         obj = module.si_frame_computer if kind == "si" else module.postprocessor
+        if kind == "post" and self.origin.get(module) is not None:
+            obj = self.origin[module]  # the post-processor the wrapper was made for, as it is now ("merely ... runs apply")
         xn = x.detach().cpu().numpy()
         self.active = False
         try:
@@ -313,6 +315,9 @@ def run_case(case, rec, mon=None):
                 Ns = sorted(set(Ns) | {max(0, k * fs + fs - fs // 2 - 1 + j) for k in (2, 3) for j in (-2, 0, 1)} | {3 * fs - 1, 3 * fs})
                 # long enough for a frame (>= fl // 2 + 1) yet rounding to no frame at all (sparse frames: fs > 2 N)
                 Ns = sorted(set(Ns) | {fl // 2 + 1, max(fl // 2 + 1, fs - fs // 2 - 1)})
+                if case.get("many_frames"):
+                    Ns = sorted(set(Ns) | {k * fs + fs // 2 for k in case["many_frames"]})
+                    rec.count("recordings_of_thousands_of_frames", len(case["many_frames"]))
                 for N in Ns:
                     x = gen.signal(rng, N, None, np.float32 if (prec == "f32" and rng.random() < 0.5) else np.float64)
                     with torch.no_grad():
@@ -364,7 +369,7 @@ def run_case(case, rec, mon=None):
             finally:
                 mon.active = True
     elif kind == "wrappers":
-        for _ in range(case["n"]):
+        for j in range(case["n"]):
             n = int(rng.choice([0, 1, 2, 5, int(rng.integers(6, 400))]))
             dt = torch.float32 if rng.random() < 0.5 else torch.float64
             x = _tview(rng, torch.from_numpy(gen.signal(rng, n, None)).to(dt))
@@ -381,9 +386,25 @@ def run_case(case, rec, mon=None):
             else:
                 pp = POST.Stack(int(rng.integers(1, 4)), pad_mode=None if rng.random() < 0.5 else "edge")
             try:
-                T.PyTorchPostProcessorWrapper.from_postprocessor(pp)(feats)
+                wrapped = T.PyTorchPostProcessorWrapper.from_postprocessor(pp)
+                if which == 0 and j % 2 == 0:
+                    # the wrapped object goes on collecting statistics after the wrapper was made (and once more between two calls)
+                    pp.accumulate(rng.standard_normal((30, F)) * 4 + 2)
+                    rec.count("wrapped_standardize_accumulates_after_wrapping")
+                    wrapped(feats)
+                    pp.accumulate(rng.standard_normal((10, F)) - 3)
+                wrapped(feats)
             except Exception:
                 pass
+            if j % 4 == 1:
+                # a Standardize without statistics when it is wrapped; they arrive afterwards
+                st2 = POST.Standardize()
+                try:
+                    w2 = T.PyTorchPostProcessorWrapper.from_postprocessor(st2)
+                    st2.accumulate(rng.standard_normal((40, F)) * 2 + 1)
+                    w2(feats)
+                except Exception:
+                    pass
         rec.sample({"kind": kind, "n": case["n"]})
     elif kind == "si":
         from .C03 import make_cfg as si_make
@@ -465,6 +486,13 @@ def plan(tier, seed):
         cfg = gen.stft_cfg(rng, fl=fl, fs=int(fl * rng.choice([2, 3, 4]) + rng.integers(0, 3)))
         cfg["include_energy"] = bool(i % 2 == 0)
         cases.append({"kind": "stft", "idx": 500000 + i, "seed": seed, "cfg": cfg})
+    for i in range(2 if q else 8):
+        # directed: recordings of several thousand frames (a hop of two to four samples): beyond any plausible block of frames
+        rng = rng_for(seed, "C14", 600000 + i, 0)
+        fs = int(rng.choice([2, 3, 4]))
+        cfg = gen.stft_cfg(rng, fl=int(rng.choice([6, 8, 9])), fs=fs)
+        cfg["include_energy"] = bool(i % 2)
+        cases.append({"kind": "stft", "idx": 600000 + i, "seed": seed, "cfg": cfg, "many_frames": [4096, 4097, 4500 + 37 * i, 8193 + i]})
     for i in range(3 if q else 30):
         cases.append({"kind": "script", "idx": i, "seed": seed, "cfg": make_cfg(seed, 400000 + i)})
     for i in range(8 if q else 80):
